@@ -17,13 +17,13 @@ rm -f $W/$PKG/zz_seed_demo_test.go
 files=$(git diff --name-only | tr '\n' ' ')
 pk=$(git diff --name-only | xargs -n1 dirname | sort -u | sed 's#^#./#' | tr '\n' ' ')
 base=$(cd $W && go build $pk 2>&1 | tail -2 | tr '\n' ' '; go test -vet=off -count=1 $pk 2>&1 | grep -v "no test files" | grep -v "TestNewAddrFromString\|TestTaprootScritps" | tail -4 | tr '\n' ' ')
-git checkout -q -- .
 echo "clean:   $clean"; echo "patched: $patched"; echo "baseline(with patch): $base"
-# the property's quick check against the change
+# the property's quick check against the change: the scratch worktree is brought to /repo's HEAD plus the patch
+# (VCHECK_REPO), so that /repo itself is never touched and checks running elsewhere are not disturbed
+git checkout -q -- . && git checkout -q --detach $(git -C /repo rev-parse HEAD) && git apply $S/patch.diff || { echo "patch does not apply to /repo HEAD"; exit 2; }
 cd /verif
-git -C /repo apply $S/patch.diff || { echo "patch does not apply to /repo"; exit 2; }
-./bin/vcheck run $P > /tmp/evalseed-$ID.log 2>&1; rc=$?
-git -C /repo checkout -q -- .
+VCHECK_REPO=$W ./bin/vcheck run $P ${EVAL_ARGS} > /tmp/evalseed-$ID.log 2>&1; rc=$?
+git -C $W checkout -q -- .
 classes=$(grep '^violation class' /tmp/evalseed-$ID.log | sed 's/violation class \([^ ]*\) (\([0-9]*\) runs.*/\1:\2/' | tr '\n' ' ')
 summary=$(grep "^vcheck: $P" /tmp/evalseed-$ID.log | tail -1)
 echo "check exit=$rc classes: $classes"; echo "$summary"
